@@ -92,9 +92,18 @@ Proof.
   - vm_compute. discriminate.
 Qed.
 
+(* the operator-norm version: a matrix that factors through i rows (X = G W, W with i rows: every matrix of rank <= i) leaves a residual whose
+   every operator bound is at least s_i *)
+From QVT Require Import Norms SpectralNorm Kernel MinMax.
+Theorem C05_no_low_rank_matrix_is_closer_in_operator_norm m n r i (U V G Wr : qmat RR) (s : nat -> R) (M : R) : (i < r)%nat ->
+  meq r r (qmm m (qherm U) U) qmid -> meq r r (qmm n (qherm V) V) qmid ->
+  (forall k, (k < r)%nat -> (0 <= s k)%R) -> (forall k l, (k <= l)%nat -> (l < r)%nat -> (s l <= s k)%R) ->
+  op_bound m n (qmsub (@usv RR r U s V) (qmm i G Wr)) M -> (s i <= M)%R.
+Proof. exact (low_rank_competitor_bound m n r i U V G Wr s M). Qed.
 Print Assumptions C05_structured_factor_is_unitary.
 Print Assumptions C05_structured_factors_reconstruct.
 Print Assumptions C05_unstructured_oracle_refuted.
 Print Assumptions C05_truncation_error_value.
 Print Assumptions C05_truncation_is_optimal.
 Print Assumptions C05_singular_values_are_determined.
+Print Assumptions C05_no_low_rank_matrix_is_closer_in_operator_norm.
